@@ -187,6 +187,7 @@ type Obligation struct {
 	Name     string   // stable name: <pkg>.<func>:<kind>
 	Props    []string // property ids
 	Func     string
+	FuncKey  string
 	Kind     string
 	Path     int
 	Trace    []string
@@ -229,6 +230,7 @@ type VC struct {
 	nreturns int
 	lockCheck bool
 	curFrame *Frame
+	key      string
 }
 
 func (vc *VC) note(format string, args ...interface{}) {
